@@ -556,8 +556,7 @@ def havoc_object(c, obj, skip=()):
         elif isinstance(v, SDict):
             v.has = z3.Array(c.fresh_name("h_%s.has" % k), v.has.sort().domain(), z3.BoolSort())
             v.val = z3.Array(c.fresh_name("h_%s.val" % k), v.val.sort().domain(), v.val.sort().range())
-            v.size = z3.Int(c.fresh_name("h_%s.size" % k))
-            c.assume_z3(v.size >= 0)
+            havoc_container(c, k, v)
 
 
 def heap_eq(c, snap):
@@ -700,3 +699,26 @@ def pair_seq(c, name):
         c.assume_failed = True
         raise core.PathEnd()
     return collections.deque((it, h.from_id(fi)) for it, fi in items)
+
+
+def havoc_container(c, name, v):
+    if isinstance(v, SSeq):
+        v.arr = z3.Array(c.fresh_name("h_%s.arr" % name), z3.IntSort(), v.arr.sort().range())
+        v.lo = z3.Int(c.fresh_name("h_%s.lo" % name))
+        v.hi = z3.Int(c.fresh_name("h_%s.hi" % name))
+        c.assume_z3(v.lo <= v.hi)
+    elif isinstance(v, SDict):
+        v.has = z3.Array(c.fresh_name("h_%s.has" % name), v.has.sort().domain(), z3.BoolSort())
+        v.val = z3.Array(c.fresh_name("h_%s.val" % name), v.val.sort().domain(), v.val.sort().range())
+        v.size = z3.Int(c.fresh_name("h_%s.size" % name))
+        v.enum = z3.Array(c.fresh_name("h_%s.enum" % name), z3.IntSort(), v.has.sort().domain())
+        v.idx = z3.Array(c.fresh_name("h_%s.idx" % name), v.has.sort().domain(), z3.IntSort())
+        c.assume_z3(v.wf())
+        c.use_model("dict model: len == number of keys (SDict.wf, assumed after havoc)")
+
+
+def new_int_dict(c, name):
+    """empty dict int -> int as an SDict."""
+    has = z3.K(z3.IntSort(), z3.BoolVal(False))
+    val = z3.K(z3.IntSort(), z3.IntVal(0))
+    return SDict(has, val, z3.IntVal(0), lambda k: _iz(k), lambda t: SInt(t), lambda v: _iz(v))
